@@ -6,6 +6,8 @@ import os
 import random
 import subprocess
 
+from collections import Counter
+
 from hypothesis import strategies as st
 
 from .. import boot, drive, gen, model, parse, traceana
@@ -206,7 +208,15 @@ class Procs(Part):
         w = traceana.World(spec)
         pids = traceana.by_pid(run.trace)
         if run.exc is None:
-            ok_layers = common.runnable_layers(w, spec)
+            # never dropping a test: whatever the seed and the mode, every listed test is executed (no layer hook fails here)
+            ran = Counter(w.tests[e['id']]['str'] for e in run.trace
+                          if e['ev'] == 'T' and e['ph'] == 'run' and e['id'] in w.tests)
+            want = Counter(n for names in base.values() for n in names)
+            if ran != want:
+                viol.append(('C11/not-a-permutation/procs', 'seed %d, -j %s: %d tests listed, %d executed; missing %s, extra %s'
+                             % (seed, o.get('j'), sum(want.values()), sum(ran.values()),
+                                [x.replace(spec['mp'], '') for x in sorted((want - ran))[:4]],
+                                [x.replace(spec['mp'], '') for x in sorted((ran - want))[:4]])))
             if o['explicit']:
                 ex = executed_order(spec, run)
                 ref = reference_shuffle(base, seed)
